@@ -376,12 +376,22 @@ class Body:
                 for i, s in enumerate(self.blocks[b]["s"]):
                     if s["k"] == "assign":
                         pl = s["pl"]
-                        key = pl["l"] if not pl.get("p") else ("p", pl["l"])
+                        if not pl.get("p"):
+                            key = pl["l"]
+                        elif pl["p"][0] == "*":
+                            key = ("s", pl["l"])  # store through a reference
+                        else:
+                            key = ("p", pl["l"])
                         d.setdefault(key, []).append((b, i, "assign", s))
                 t = self.blocks[b]["t"]
                 if t["k"] == "call":
                     pl = t["dest"]
-                    key = pl["l"] if not pl.get("p") else ("p", pl["l"])
+                    if not pl.get("p"):
+                        key = pl["l"]
+                    elif pl["p"][0] == "*":
+                        key = ("s", pl["l"])
+                    else:
+                        key = ("p", pl["l"])
                     d.setdefault(key, []).append((b, len(self.blocks[b]["s"]), "call", t))
             self._defs = d
         return self._defs
@@ -442,6 +452,18 @@ TRANSPARENT_EXACT = (
     "alloc::boxed::Box::<T>::new",
     "core::mem::replace",
     "core::mem::take",
+    # a lock guard stands for the protected value
+    "lock_api::mutex::Mutex::lock",
+    "lock_api::mutex::Mutex::try_lock",
+    "lock_api::mutex::Mutex::lock_arc",
+    "lock_api::mutex::Mutex::try_lock_arc",
+    "lock_api::rwlock::RwLock::read",
+    "lock_api::rwlock::RwLock::write",
+    "lock_api::rwlock::RwLock::try_read",
+    "lock_api::rwlock::RwLock::try_write",
+    "lock_api::rwlock::RwLock::read_arc",
+    "lock_api::rwlock::RwLock::write_arc",
+    "lock_api::rwlock::RwLock::upgradable_read",
 )
 
 
@@ -455,142 +477,231 @@ def is_transparent(callee):
 
 
 class Root:
-    """A traced origin of a value."""
+    """A traced origin of a value.  `fields` is the access path from the root (names, in access
+    order), `owners` the ADT owning each field ("" when unknown)."""
 
-    __slots__ = ("kind", "bb", "what", "fields", "obj")
+    __slots__ = ("kind", "bb", "what", "fields", "owners", "obj", "body")
 
-    def __init__(self, kind, bb, what, fields=(), obj=None):
-        self.kind = kind  # param | call | const | agg | upvar | unknown | binop
+    def __init__(self, kind, bb, what, path=(), obj=None, body=None):
+        self.kind = kind  # param | call | const | agg | upvar | unknown | binop | via
         self.bb = bb
-        self.what = what  # param index / callee / const string / agg name
-        self.fields = tuple(fields)
+        self.what = what  # param index / callee / const string / agg name / upvar name
+        self.fields = tuple(p[0] for p in path)
+        self.owners = tuple(p[1] for p in path)
         self.obj = obj
+        self.body = body
+
+    @property
+    def path(self):
+        return tuple(zip(self.fields, self.owners))
 
     def __repr__(self):
         return "Root(%s,%s,%s,%s)" % (self.kind, self.bb, self.what, ".".join(self.fields))
 
     def key(self):
-        return (self.kind, self.bb, str(self.what), self.fields)
+        return (self.kind, self.bb, str(self.what), self.fields, self.body)
 
 
-def trace(body, op_or_place, extra_transparent=(), max_depth=40):
+def proj_path(pl):
+    """field path of a place as ((name, owner), ...); payload projections of enum variants
+    (`@Some` then `.0`) are dropped, as are derefs and indices."""
+    fs = []
+    prev_down = False
+    p = pl.get("p", ())
+    o = pl.get("o", ())
+    for i, e in enumerate(p):
+        if e.startswith("@"):
+            prev_down = True
+            continue
+        if e.startswith("."):
+            if prev_down:
+                prev_down = False
+                continue
+            fs.append((e[1:], o[i] if i < len(o) else ""))
+        prev_down = False
+    return tuple(fs)
+
+
+def trace(body, op_or_place, extra_transparent=(), max_depth=40, deep=False, path0=()):
     """Backward value tracing inside one body.  Returns a list of Root.
-    Field projections are accumulated (outermost last); payload projections of enum variants
-    (`@Some`, `.0` following a downcast) are dropped."""
+    deep=True: when an aggregate is reached with no field selection left, all its operands are
+    followed as well (containment tracing)."""
     out = {}
     seen = set()
 
-    def proj_fields(pl):
-        fs = []
-        prev_down = False
-        for e in pl.get("p", ()):
-            if e.startswith("@"):
-                prev_down = True
-                continue
-            if e.startswith("."):
-                if prev_down:
-                    prev_down = False
-                    continue  # payload of an enum variant
-                fs.append(e[1:])
-            prev_down = False
-        return tuple(fs)
-
     def add(r):
+        r.body = body.id
         out[r.key()] = r
 
-    def go_place(pl, fields, depth):
-        l = pl["l"]
-        fields = proj_fields(pl) + tuple(fields)
-        go_local(l, fields, depth)
+    def go_place(pl, path, depth):
+        go_local(pl["l"], proj_path(pl) + tuple(path), depth)
 
-    def go_op(op, fields, depth):
+    def go_op(op, path, depth):
         k = op["k"]
         if k in ("copy", "move"):
-            go_place(op["pl"], fields, depth)
+            go_place(op["pl"], path, depth)
         elif k == "const":
-            add(Root("const", -1, op.get("def") or op.get("s", ""), fields, op))
+            add(Root("const", -1, op.get("def") or op.get("s", ""), path, op))
         else:
-            add(Root("unknown", -1, op.get("s", ""), fields, op))
+            add(Root("unknown", -1, op.get("s", ""), path, op))
 
-    def go_local(l, fields, depth):
-        key = (l, fields)
+    def go_local(l, path, depth):
+        key = (l, path)
         if key in seen or depth > max_depth:
             return
         seen.add(key)
         if 1 <= l <= body.argc:
             if body.kind == "Closure" and l == 1:
-                # closure environment: first field is the captured variable
-                add(Root("upvar", -1, fields[0] if fields else "<env>", fields[1:] if fields else (), None))
+                if path:
+                    add(Root("upvar", -1, path[0][0], path[1:], None))
+                else:
+                    add(Root("upvar", -1, "<env>", (), None))
             else:
-                add(Root("param", -1, l, fields, None))
-            # parameters may also be re-assigned; fall through to defs
+                add(Root("param", -1, l, path, None))
         ds = body.defs().get(l, [])
-        if not ds and not (1 <= l <= body.argc):
-            # maybe only partially assigned (struct built field by field)
-            pds = body.defs().get(("p", l), [])
-            if not pds:
-                add(Root("unknown", -1, "_%d" % l, fields, None))
-            for (b, i, kind, obj) in pds:
-                if kind == "assign":
-                    pf = proj_fields(obj["pl"])
-                    if fields[: len(pf)] == pf:
-                        go_rv(obj["rv"], b, fields[len(pf):], depth + 1, obj)
-            return
+        pds = body.defs().get(("p", l), [])
+        if not ds and not pds and not (1 <= l <= body.argc):
+            add(Root("unknown", -1, "_%d" % l, path, None))
+        for (b, i, kind, obj) in pds:
+            if kind == "assign":
+                pf = proj_path(obj["pl"])
+                names = tuple(x[0] for x in path[: len(pf)])
+                if names == tuple(x[0] for x in pf):
+                    go_rv(obj["rv"], b, path[len(pf):], depth + 1, obj)
+            elif kind == "call":
+                pf = proj_path(obj["dest"])
+                names = tuple(x[0] for x in path[: len(pf)])
+                if names == tuple(x[0] for x in pf):
+                    go_call(obj, b, path[len(pf):], depth + 1)
         for (b, i, kind, obj) in ds:
             if kind == "assign":
-                go_rv(obj["rv"], b, fields, depth + 1, obj)
+                go_rv(obj["rv"], b, path, depth + 1, obj)
             else:
-                go_call(obj, b, fields, depth + 1)
+                go_call(obj, b, path, depth + 1)
 
-    def go_rv(rv, b, fields, depth, stmt):
+    def go_rv(rv, b, path, depth, stmt):
         k = rv["k"]
         if k == "use":
-            go_op(rv["op"], fields, depth)
+            go_op(rv["op"], path, depth)
         elif k in ("ref", "rawptr"):
-            go_place(rv["pl"], fields, depth)
+            go_place(rv["pl"], path, depth)
         elif k == "cast":
-            go_op(rv["op"], fields, depth)
+            go_op(rv["op"], path, depth)
         elif k == "discr":
-            go_place(rv["pl"], fields + ("<discr>",), depth)
+            go_place(rv["pl"], tuple(path) + (("<discr>", ""),), depth)
         elif k == "agg":
             ak = rv.get("ak")
-            if ak in ("adt", "closure") and fields and rv.get("fields") and fields[0] in rv["fields"]:
-                i = rv["fields"].index(fields[0])
-                go_op(rv["ops"][i], fields[1:], depth)
-            elif ak == "tuple" and fields and fields[0].isdigit() and int(fields[0]) < len(rv["ops"]):
-                go_op(rv["ops"][int(fields[0])], fields[1:], depth)
+            f0 = path[0][0] if path else None
+            if ak in ("adt", "closure") and path and rv.get("fields") and f0 in rv["fields"] and not (
+                ak == "adt" and rv.get("name") in ("core::option::Option", "core::result::Result")
+            ):
+                i = rv["fields"].index(f0)
+                go_op(rv["ops"][i], path[1:], depth)
+            elif ak == "tuple" and path and f0.isdigit() and int(f0) < len(rv["ops"]):
+                go_op(rv["ops"][int(f0)], path[1:], depth)
             elif ak == "adt" and rv.get("name") in ("core::option::Option", "core::result::Result") and len(rv["ops"]) == 1:
-                # payload wrapper: follow
-                add(Root("agg", b, rv.get("name") + "::" + rv.get("variant", ""), fields, rv))
-                go_op(rv["ops"][0], fields, depth)
+                add(Root("agg", b, rv.get("name") + "::" + rv.get("variant", ""), path, rv))
+                go_op(rv["ops"][0], path, depth)
             else:
                 nm = rv.get("name", ak)
                 if rv.get("variant") and ak == "adt":
                     nm = nm + "::" + rv["variant"]
-                add(Root("agg", b, nm, fields, rv))
+                add(Root("agg", b, nm, path, rv))
+                if deep and not path:
+                    for o in rv["ops"]:
+                        go_op(o, (), depth)
         elif k in ("bin", "un"):
-            add(Root("binop", b, rv.get("op"), fields, rv))
+            add(Root("binop", b, rv.get("op"), path, rv))
         else:
-            add(Root("unknown", b, rv.get("s", k), fields, rv))
+            add(Root("unknown", b, rv.get("s", k), path, rv))
 
-    def go_call(t, b, fields, depth):
+    def go_call(t, b, path, depth):
         callee = t.get("callee") or ""
         if (is_transparent(callee) or callee in extra_transparent) and t["args"]:
-            add(Root("via", b, callee, fields, t))
-            go_op(t["args"][0], fields, depth)
+            add(Root("via", b, callee, path, t))
+            go_op(t["args"][0], path, depth)
         else:
-            add(Root("call", b, callee or "<fnptr>", fields, t))
+            add(Root("call", b, callee or "<fnptr>", path, t))
 
     if "k" in op_or_place:
-        go_op(op_or_place, (), 0)
+        go_op(op_or_place, tuple(path0), 0)
     else:
-        go_place(op_or_place, (), 0)
+        go_place(op_or_place, tuple(path0), 0)
     return [r for r in out.values()]
 
 
 def roots(body, op_or_place, **kw):
     """trace() without the 'via' breadcrumbs."""
     return [r for r in trace(body, op_or_place, **kw) if r.kind != "via"]
+
+
+def xtrace(facts, body, op_or_place, depth=4, deep=False, _seen=None, follow_returns=True, path0=()):
+    """inter-procedural trace: `upvar` roots are resolved in the parent body at the closure's creation,
+    `param` roots at every call site of the function (when it has callers in the facts)."""
+    if _seen is None:
+        _seen = set()
+    res = []
+    for r in roots(body, op_or_place, deep=deep, path0=path0):
+        if depth <= 0:
+            res.append(r)
+            continue
+        if r.kind == "upvar" and body.parent and body.parent in facts.bodies and r.what != "<env>":
+            par = facts.bodies[body.parent]
+            hit = False
+            for b in range(par.n):
+                for s in par.stmts(b):
+                    if s["k"] == "assign" and s["rv"]["k"] == "agg" and s["rv"].get("ak") == "closure" and s["rv"].get("name") == body.id:
+                        fl = s["rv"].get("fields", [])
+                        if r.what in fl:
+                            op = s["rv"]["ops"][fl.index(r.what)]
+                            key = (par.id, b, r.what, r.fields)
+                            if key in _seen:
+                                continue
+                            _seen.add(key)
+                            hit = True
+                            for rr in xtrace(facts, par, op, depth - 1, deep, _seen, follow_returns, r.path):
+                                res.append(rr)
+            if not hit:
+                res.append(r)
+        elif r.kind == "param" and body.kind != "Closure":
+            callers = [c for c in facts.callers().get(body.id, []) if c[2] in ("call", "candidate")]
+            if not callers:
+                res.append(r)
+                continue
+            res.append(r)
+            for (cid, cb, kind) in callers:
+                cbody = facts.bodies[cid]
+                t = cbody.term(cb)
+                ai = r.what - 1
+                if t["k"] != "call" or ai >= len(t["args"]):
+                    continue
+                key = (cid, cb, ai, r.fields)
+                if key in _seen:
+                    continue
+                _seen.add(key)
+                for rr in xtrace(facts, cbody, t["args"][ai], depth - 1, deep, _seen, follow_returns, r.path):
+                    res.append(rr)
+        elif r.kind == "call" and r.what in facts.bodies and follow_returns and facts.bodies[r.what].kind != "Closure":
+            cal = facts.bodies[r.what]
+            key = ("ret", r.what, r.fields)
+            if key in _seen:
+                res.append(r)
+                continue
+            _seen.add(key)
+            res.append(r)
+            sub = xtrace(facts, cal, {"l": 0}, depth - 1, deep, _seen, follow_returns, r.path)
+            for rr in sub:
+                if rr.kind in ("param",) and rr.body == cal.id:
+                    continue  # would need argument binding; not followed
+                res.append(rr)
+        else:
+            res.append(r)
+    return res
+
+
+def _extend(root, path):
+    r = Root(root.kind, root.bb, root.what, root.path + tuple(path), root.obj, root.body)
+    return r
 
 
 class Facts:
